@@ -878,6 +878,7 @@ where
     /// the first `n` keystream bytes of a fresh object constructed through the crate's *public alias* for this type
     /// (`ctr::Ctr32BE<C>`, …, `ofb::Ofb<C>`, `belt_ctr::BeltCtr<C>`) — what users name; op `aliasks n`
     alias_ks: Option<AliasKs>,
+    probe: Option<fn(&StreamCipherCoreWrapper<T>) -> Option<StreamCipherCoreWrapper<T>>>,
 }
 
 pub type AliasKs = fn(&[u8], &[u8], usize) -> Vec<u8>;
@@ -902,7 +903,11 @@ where
 {
     pub fn new_alias(key: &[u8], iv: &[u8], alias_ks: AliasKs) -> Box<dyn Obj> {
         let w = <StreamCipherCoreWrapper<T> as KeyIvInit>::new(key.try_into().unwrap(), iv.try_into().unwrap());
-        Box::new(Self { w, key: key.to_vec(), iv: iv.to_vec(), alias_ks: Some(alias_ks) })
+        Box::new(Self { w, key: key.to_vec(), iv: iv.to_vec(), alias_ks: Some(alias_ks), probe: None })
+    }
+    pub fn new_alias_probe(key: &[u8], iv: &[u8], alias_ks: AliasKs, probe: fn(&StreamCipherCoreWrapper<T>) -> Option<StreamCipherCoreWrapper<T>>) -> Box<dyn Obj> {
+        let w = <StreamCipherCoreWrapper<T> as KeyIvInit>::new(key.try_into().unwrap(), iv.try_into().unwrap());
+        Box::new(Self { w, key: key.to_vec(), iv: iv.to_vec(), alias_ks: Some(alias_ks), probe: Some(probe) })
     }
 }
 
@@ -911,7 +916,8 @@ where
     StreamCipherCoreWrapper<T>: StreamCipherSeekMaybe + Debug,
 {
     fn boxed_clone(&self) -> Option<Box<dyn Obj>> {
-        Some(Box::new(Self { w: T::maybe_clone_wrapper(&self.w)?, key: self.key.clone(), iv: self.iv.clone(), alias_ks: self.alias_ks }))
+        let w = T::maybe_clone_wrapper(&self.w).or_else(|| self.probe.and_then(|f| f(&self.w)))?;
+        Some(Box::new(Self { w, key: self.key.clone(), iv: self.iv.clone(), alias_ks: self.alias_ks, probe: self.probe }))
     }
     fn as_any(&self) -> &dyn core::any::Any {
         self
@@ -985,18 +991,25 @@ where
 pub struct CoreObj<T: CoreKind> {
     c: T,
     key: Vec<u8>,
+    /// `Clone::clone` found by probing at a concrete call site, for core types `CoreKind::maybe_clone` knows as not cloneable
+    probe: Option<fn(&T) -> Option<T>>,
 }
 
 impl<T: CoreKind> CoreObj<T> {
     pub fn new(key: &[u8], iv: &[u8]) -> Box<dyn Obj> {
         let c = <T as KeyIvInit>::new(key.try_into().unwrap(), iv.try_into().unwrap());
-        Box::new(Self { c, key: key.to_vec() })
+        Box::new(Self { c, key: key.to_vec(), probe: None })
+    }
+    pub fn new_probe(key: &[u8], iv: &[u8], probe: fn(&T) -> Option<T>) -> Box<dyn Obj> {
+        let c = <T as KeyIvInit>::new(key.try_into().unwrap(), iv.try_into().unwrap());
+        Box::new(Self { c, key: key.to_vec(), probe: Some(probe) })
     }
 }
 
 impl<T: CoreKind> Obj for CoreObj<T> {
     fn boxed_clone(&self) -> Option<Box<dyn Obj>> {
-        Some(Box::new(Self { c: self.c.maybe_clone()?, key: self.key.clone() }))
+        let c = self.c.maybe_clone().or_else(|| self.probe.and_then(|f| f(&self.c)))?;
+        Some(Box::new(Self { c, key: self.key.clone(), probe: self.probe }))
     }
     fn as_any(&self) -> &dyn core::any::Any {
         self
@@ -1276,6 +1289,36 @@ macro_rules! maybe_debug {
 }
 
 pub type DbgFn = fn(&[u8], &[u8]) -> String;
+
+// `Clone::clone` of a type that may or may not implement `Clone` (`BeltCtrCore` and `BeltCtr` do not, at the pinned commit),
+// resolved the same way at a call site where the type is concrete
+pub struct CloneWrap<'a, T>(pub &'a T);
+pub trait ViaClone<T> {
+    fn try_clone(&self) -> Option<T>;
+}
+impl<T: Clone> ViaClone<T> for CloneWrap<'_, T> {
+    fn try_clone(&self) -> Option<T> {
+        Some(self.0.clone())
+    }
+}
+pub trait ViaNoClone<T> {
+    fn try_clone(&self) -> Option<T>;
+}
+impl<T> ViaNoClone<T> for &CloneWrap<'_, T> {
+    fn try_clone(&self) -> Option<T> {
+        None
+    }
+}
+#[macro_export]
+macro_rules! maybe_clone_fn {
+    ($T:ty) => {
+        |x: &$T| -> Option<$T> {
+            #[allow(unused_imports)]
+            use $crate::objs::{ViaClone, ViaNoClone};
+            (&$crate::objs::CloneWrap(x)).try_clone()
+        }
+    };
+}
 
 pub struct CtsObj<K: CtsKind> {
     key: Vec<u8>,
